@@ -368,3 +368,49 @@ func verif_GetWorkConn(ctl *Control) {
 	}
 	_ = wc
 }
+
+// ---------------------------------------------------------------- C17 / C16
+
+// First message of a connection: "a peer that sends an unexpected or malformed
+// first message is disconnected without affecting other sessions". The read
+// happens under a deadline; when it fails, or the message is not one of the
+// three connection openers (Login, NewWorkConn, NewVisitorConn), the connection
+// is closed and nothing is registered: no plugin is consulted, no session,
+// work connection or visitor connection is created. When a registration fails
+// the connection is closed as well.
+//
+//verif:contract (*~/server.Service).handleConnection
+//verif:props C17 C16
+func verif_handleConnection(svr *Service, ctx context.Context, conn net.Conn, internal bool) {
+	verif.ResetEvents()
+	svr.handleConnection(ctx, conn, internal)
+	verif.Ensures(verif.CalledBefore("Conn).SetReadDeadline", "msg.ReadMsg") && verif.CalledWith("msg.ReadMsg", 0, conn), "first_read_under_deadline")
+	rerr := verif.RetErr("msg.ReadMsg", 1)
+	registered := verif.Called("Service).RegisterControl") || verif.Called("Service).RegisterWorkConn") || verif.Called("Service).RegisterVisitorConn")
+	closed := verif.CalledWith("Conn).Close", 0, conn)
+	if rerr != nil {
+		verif.Ensures(closed, "unreadable_first_message_disconnects")
+		verif.Ensures(!registered && !verif.Called("Manager).Login"), "unreadable_first_message_registers_nothing")
+	} else {
+		m := verif.Ret[msg.Message]("msg.ReadMsg", 0)
+		_, isLogin := m.(*msg.Login)
+		_, isWork := m.(*msg.NewWorkConn)
+		_, isVisitor := m.(*msg.NewVisitorConn)
+		if !isLogin && !isWork && !isVisitor {
+			verif.Ensures(closed, "unexpected_first_message_disconnects")
+			verif.Ensures(!registered && !verif.Called("Manager).Login"), "unexpected_first_message_registers_nothing")
+		}
+		if isLogin {
+			verif.Ensures(!verif.Called("Service).RegisterWorkConn") && !verif.Called("Service).RegisterVisitorConn"), "login_opens_only_a_session")
+			if !verif.Called("Service).RegisterControl") || verif.RetErr("Service).RegisterControl", 0) != nil {
+				verif.Ensures(closed, "refused_login_disconnects")
+			}
+		}
+		if isWork && verif.RetErr("Service).RegisterWorkConn", 0) != nil {
+			verif.Ensures(closed, "refused_work_connection_disconnects")
+		}
+		if isVisitor && verif.RetErr("Service).RegisterVisitorConn", 0) != nil {
+			verif.Ensures(closed, "refused_visitor_connection_disconnects")
+		}
+	}
+}
